@@ -165,6 +165,19 @@ theorem judge_accepts_model [DecidableEq F] (norm : DevRow F → DevRow F) (d : 
                       · exact hc) hm).2
       cases e <;> simp [FErr.isXml] at this <;> simp [observedOf, FErr.isLibrary]
 
+/-- **Creation has no memory.** The model of a long-lived factory is the function
+    `asyncCreateDevice (what the requester answers NOW) (options)`: it has no factory state, so a history
+    of creations — documents changed, repaired, corrupted, swapped between URLs, other devices in between —
+    is judged creation by creation, each against the documents served at that time; every one of them
+    satisfies the judge. (`steps`: for each creation the description served then and its URL.) -/
+theorem history_judged [DecidableEq F] (norm : DevRow F → DevRow F) (nonStrict : Bool) (fuel : Nat)
+    (steps : List (DeviceSpec × Str)) (step : DeviceSpec × Str) (_hmem : step ∈ steps) (hf : step.1.depth ≤ fuel) :
+    judge fo table norm nonStrict step.2 step.1
+      (observedOf (match asyncCreateDevice fo table (serve step.2 step.1) nonStrict step.2 fuel with
+        | .ok m => .ok (flatten 0 m)
+        | .error e => .error e)) = true :=
+  judge_accepts_model fo norm step.1 step.2 nonStrict fuel hf
+
 /-- **One-to-one.** The created device has exactly the services of the description, in order, with
     their types; each service's model depends on that service's description only. -/
 theorem services_one_to_one (nonStrict : Bool) (base : Str) (info : List (Option Str)) (icons : List IconSpec)
